@@ -56,6 +56,15 @@ def _sentence_matches(case, params):
 
 def C12_feature(case, params):
     if case.get("kind") == "file":
-        # a file fails because one of its cards does
-        return any(_sentence_matches(dict(c, kind="sentence"), params) for c in case.get("cards", []))
+        import props.C12 as C12
+        cards = case.get("cards", [])
+        # a file fails because one of its cards does ...
+        if any(_sentence_matches(dict(c, kind="sentence"), params) for c in cards):
+            return True
+        # ... or because a card that is accepted alone is not accepted inside a file: the file without any known
+        # feature must be read
+        if not any(t.startswith(params["tag"]) and known(t) for c in cards for t in G.features(c["shape"])):
+            return False
+        cleaned = [dict(c, shape=clean(c["shape"])) for c in cards]
+        return C12.oracle_file(G.problem_text(cleaned, None, crlf=case.get("crlf", False))) is None
     return _sentence_matches(case, params)
